@@ -120,18 +120,22 @@ def c10(tier):
     acc = 0
     valid_acc = []
     outcomes = set()
+    optional_rejected = 0
     for j, d in enumerate(decls):
         v = S.enum_decl_valid(d)
         accepted = j not in errs
         outcomes.add((v, accepted, None if accepted else msg_class(errs[j][0][1])))
         acc += accepted
         text = S.emit_enum_decl(d)
-        if v and not accepted:
+        if v and not accepted and not S.enum_decl_documented_order(d):
+            optional_rejected += 1
+        elif v and not accepted:
             chk.add_violation(f"valid bitenum rejected: {text}", "valid_rejected", f"valid bitenum rejected: {text} :: {errs[j][0]}", decl_replay(text, "accept"))
         elif (not v) and accepted:
             chk.add_violation(f"invalid bitenum accepted: {text}", "invalid_accepted", f"invalid bitenum accepted: {text}", decl_replay(text, "reject"))
-        elif v:
+        elif v and accepted:
             valid_acc.append((j, d))
+    chk.extra["valid_enums_in_undocumented_argument_order_rejected"] = optional_rejected
     # pass 2: accepted valid enums with a use of both conversions, through codegen
     def use(d):
         return "pub fn use_all(e: E) -> bool { let r = e.raw_value(); let _ = E::new_with_raw_value(r); true }"
